@@ -81,6 +81,18 @@ def groove_oracle(chk, name, kw, g):
 
 
 def roll_oracle(chk, name, kw, g, rng, other=None):
+    box = []
+    try:
+        return _roll_oracle(chk, name, kw, g, rng, other, box)
+    finally:
+        for hf in box:      # a plug-in grid registered for one step never outlives it
+            try:
+                hf.hook.remove_function(hf)
+            except ValueError:
+                pass
+
+
+def _roll_oracle(chk, name, kw, g, rng, other, box):
     from pyroll.core import Roll
     size = max(g.usable_width, g.depth)
     data = {'groove': name, 'kwargs': kw}
@@ -91,9 +103,37 @@ def roll_oracle(chk, name, kw, g, rng, other=None):
              (None, size * rng.uniform(0.3, 1.2)), (size * rng.uniform(3, 8), None)]
     if other is not None:
         steps += [('swap-groove', None), ('swap-back', None)]
+    # the grid lines in rolling direction are whatever the roll reports: given explicitly, supplied by a plugin registered after import, or read
+    # before the contact length became known - the surface heights must be laid out on THOSE lines
+    steps += [('explicit-grid', None), ('plugin-grid', None), ('x-then-contact', size * rng.uniform(0.3, 1.2))]
     g_first = g
+    plugin = None
     for step, (nominal, cl) in enumerate(steps):
-        if nominal in ('swap-groove', 'swap-back'):
+        if plugin is not None:
+            plugin.hook.remove_function(plugin)
+            box.remove(plugin)
+            plugin = None
+        if nominal in ('explicit-grid', 'plugin-grid', 'x-then-contact'):
+            g = g_first
+            size = max(g.usable_width, g.depth)
+            tag, nominal = nominal, size * rng.uniform(3, 8)
+            rmin = nominal - float(np.max(np.asarray(g.contour_points)[:, 1]))
+            lines = np.linspace(-0.6, 0.6, rng.choice([21, 41, 399])) * rmin
+            lines[len(lines) // 2] = 0.0
+            if tag == 'explicit-grid':
+                roll = Roll(groove=g, nominal_radius=nominal, surface_x=lines)
+            elif tag == 'plugin-grid':
+                plugin = Roll.surface_x(lambda self, lines=lines: lines)
+                box.append(plugin)
+                roll = Roll(groove=g, nominal_radius=nominal)
+            else:
+                roll = Roll(groove=g, nominal_radius=nominal)
+                roll.surface_x                  # read (and remembered) before the contact length is known
+                roll.contact_length = cl
+            data = dict(data, nominal_radius=nominal, contact_length=cl, history={'explicit-grid': f"fresh roll with {len(lines)} explicitly given grid lines surface_x",
+                        'plugin-grid': f"fresh roll, {len(lines)} grid lines supplied by a Roll.surface_x implementation registered after import",
+                        'x-then-contact': "fresh roll: surface_x read, then contact_length assigned, then surface_y read"}[tag])
+        elif nominal in ('swap-groove', 'swap-back'):
             # the SAME roll object gets another groove (deeper or shallower), the cache is re-evaluated
             g = other if nominal == 'swap-groove' else g_first
             roll.surface_y      # make sure the grid and the contour line were read before the swap
@@ -197,6 +237,10 @@ def spline_polyline(rng, dyadic=True):
     for _ in range(n - 1):
         xs.append(xs[-1] + rng.choice([0.25, 0.5, 1, 2]))
     ys = [0.0] + [rng.choice([0.5, 1, 1.5, 2, 0.25, 0.75]) for _ in range(n - 2)] + [0.0]
+    if n >= 5 and rng.random() < 0.35:
+        # contours that touch the face in between (two grooves side by side, a single peak between face points)
+        for k in rng.sample(range(1, n - 1), rng.choice([1, 2])):
+            ys[k] = 0.0
     pts = list(zip(xs, ys))
     # optional face padding: extra vertices on the face left and right (they are stripped)
     if rng.random() < 0.5:
@@ -291,7 +335,9 @@ def spline_oracle(chk, pts, uw, g, rng):
     """the stored polyline is the given one, centred on the middle of its extent; resampling changes nothing"""
     from pyroll.core import SplineGroove
     data = {'polyline': pts, 'usable_width': uw}
-    inner = [p for i, p in enumerate(pts) if not (abs(pts[i - 1][1]) <= 1e-8 and abs(pts[(i + 1) % len(pts)][1]) <= 1e-8)]
+    # face padding = vertices that lie on the face AND whose two neighbours do: every vertex off the face belongs to the groove, also a single peak
+    # between two face points
+    inner = [p for i, p in enumerate(pts) if not (abs(p[1]) <= 1e-8 and abs(pts[i - 1][1]) <= 1e-8 and abs(pts[(i + 1) % len(pts)][1]) <= 1e-8)]
     xs = [p[0] for p in inner]
     c = (min(xs) + max(xs)) / 2
     stored = np.asarray(g.contour_points)
